@@ -630,6 +630,7 @@ def summarize(ctx, env, results, skipped, caps, stats):
                    "e_nodes": 0, "e_files": 0, "e_xattr_nodes": 0, "a_link_names": 0, "c_link_names_stat": 0, "a_files_4g": 0, "a_starts_4g": 0,
                    "l_skipped": 0}
     skip_reasons = {"b": {}, "e": {}}
+    labelled = {}
     by_name = {}
     nontrivial = set()
     reports = 0
@@ -693,7 +694,10 @@ def summarize(ctx, env, results, skipped, caps, stats):
             bump("mismatch_classes", "%s:%s" % (m[0], m[1]))
             kk = known_key(case, exp, m)
             if kk is not None:
-                ctx.violation(kk, KNOWN_WHAT[kk] + " — e.g. case %s: %s %s" % (case.get("name"), m[2], m[3][:200]), replay_dict(case, res, m))
+                # a defect that was found and repaired once is reported under its old key, once per run (with the first case that shows it)
+                labelled[kk] = labelled.get(kk, 0) + 1
+                if labelled[kk] == 1:
+                    ctx.violation(kk, KNOWN_WHAT[kk] + " — e.g. case %s: %s %s" % (case.get("name"), m[2], m[3][:200]), replay_dict(case, res, m))
                 continue
             if (m[0], m[1]) in seen_cls:
                 continue
@@ -717,6 +721,8 @@ def summarize(ctx, env, results, skipped, caps, stats):
             what = "%s: read-back path (%s) %s %s: %s  [gensquashfs %s]" % (case.get("name"), m[0], m[1], m[2], m[3][:300], sres.get("cmd", "")[:200])
             found = m[0] != "infra" and m[1] != "reader-vs-parser"
             ctx.violation("mismatch:%s:%s:%s" % (m[0], m[1], case_hash(small)), what, replay_dict(small, sres, m), found_input=found)
+    if labelled:
+        ctx.log("mismatches under the keys of repaired defects: %s" % labelled)
     if suppressed:
         ctx.log("%d further mismatch classes not reported separately (limit %d reports per run)" % (suppressed, MAX_REPORTS))
     slow = sorted(results, key=lambda cr: -cr[1].get("t", 0))[:4]
@@ -785,7 +791,7 @@ def floors_for(quick):
         return {"min": {"images": 250, "refused": 40, "a_nodes": 55000, "a_files": 1600, "b_nodes": 55000, "c_list_entries": 10000, "c_stat": 2700, "c_xattr": 900,
                         "d_files": 1500, "e_nodes": 50000, "e_files": 1900, "a_link_names": 500, "c_link_names_stat": 500, "a_files_4g": 1},
                 "max_fraction_of_images": {"b_skipped": 0.08, "e_skipped": 0.12},
-                "must": {"ids-65535-accepted": "packed", "ids-65536": "refused", "ids-65537": "refused", "ids-40000-wide-accepted": "packed",
+                "must": {"ids-65535-accepted": "packed", "ids-65536": "refused", "ids-65537": "refused", "ids-65536-uid-of-directories": "refused", "ids-40000-wide-accepted": "packed",
                          "nesting-4096-accepted": "packed", "nesting-4097-explicit": "refused", "name-256-accepted": "packed", "name-257": "refused",
                          "link-missing-target": "refused", "link-to-directory": "refused", "link-to-itself": "refused", "link-cycle": "refused",
                          "hardlinks-link-directive": "packed", "hardlinks-link-lines-first": "packed", "glob-hardlinks-prefix-decoy": "packed",
